@@ -258,6 +258,12 @@ func c18docs(b core.Batch) []c18doc {
 			raw("wrong-shape", `{"cache":{"memory":7}}`)
 			raw("wrong-shape", `{"cache":{"max_cache_size":{"a":1}}}`)
 			raw("wrong-shape", `{"cache":{"max_cache_size":null}}`)
+			// the same setting twice in one document, the second time under a name in another letter case (an unknown
+			// key today): whichever way it is read, the running settings and the saved file must agree afterwards
+			raw("case-variant-keys", `{"cache":{"lock_shards":8,"Lock_Shards":0}}`)
+			raw("case-variant-keys", `{"cache":{"max_cache_size":"5G","MAX_CACHE_SIZE":"7G"}}`)
+			raw("case-variant-keys", `{"cache":{"cleanup_interval":"10m","Cleanup_Interval":"0s"},"Cache":{"lock_shards":0}}`)
+			raw("case-variant-keys", `{"proxy":{"retry_on_range_416":false,"Retry_On_Range_416":true},"logging":{"max_backups":4,"MAX_backups":-7}}`)
 		case 4:
 			add("boundary", map[string]any{"cache.lock_shards": 0})
 			add("boundary", map[string]any{"cache.lock_shards": -3})
@@ -766,7 +772,7 @@ func init() {
 	core.Register(&core.Monitor{
 		ID:    "C18",
 		Level: "fault_enumeration",
-		Rule: "update documents of classes valid (random subsets of 10 settings), invalid-value (13 forms incl. cache.type in another letter case), ill-typed (10 forms), valid-plus-failing (6 forms; Go's map order decides what is staged first, so they are repeated), unknown-key / empty / wrong-shape (8 forms), boundary (12 forms: lock_shards 0/-3/1, budget 0/100, 1B, 1ns, cache type switches, negative backups, default_max_age 0/-1h) applied one after the other to a live worker process (real cache + janitor + proxy, a recorder subscribed to every property); " +
+		Rule: "update documents of classes valid (random subsets of 10 settings), invalid-value (13 forms incl. cache.type in another letter case), ill-typed (10 forms), valid-plus-failing (6 forms; Go's map order decides what is staged first, so they are repeated), unknown-key / empty / wrong-shape (8 forms), one setting twice under names that differ in letter case (4 forms), boundary (12 forms: lock_shards 0/-3/1, budget 0/100, 1B, 1ns, cache type switches, negative backups, default_max_age 0/-1h) applied one after the other to a live worker process (real cache + janitor + proxy, a recorder subscribed to every property); " +
 			"snapshots before/after each (all effective values, file bytes, limits the cache enforces, janitor interval, notifications, the restart-required state). Accepted configurations (distinct files, capped) are loaded by a fresh process which starts a cache + proxy and serves two requests. Write failures: RLIMIT_FSIZE = n for n swept over the file length. Configuration files: the default document with every leaf / section removed in turn, every leaf set to null / another JSON type / empty / negative, unknown keys at every level, invalid values, valid changes, torn and non-configuration files, each loaded by a fresh process that must then start, serve two requests, show its settings and accept one valid update (a refused file must leave exactly the defaults in force). Non-trivial = distinct (class, document, failure point).",
 		Assumptions: []string{"a 5xx answer under an accepted configuration is C09's subject; only panics, process death and unanswered requests make a configuration unworkable here", "settling time of 25 ms for asynchronous listeners before the after-snapshot"},
 		Plan:        c18Plan,
